@@ -28,16 +28,18 @@ import (
 )
 
 type cell struct {
-	Transports []string
-	Recovery   bool
-	Clients    int
-	Emitters   int
-	PerEmitter int
-	Sizes      []int
-	Dirs       []string // "c2s", "s2c"
-	Shapes     []string // nil = all
-	MaxBuf     int64    // 0 = default
-	Label      string
+	Transports  []string
+	Recovery    bool
+	Clients     int
+	Emitters    int
+	PerEmitter  int
+	Sizes       []int
+	Dirs        []string // "c2s", "s2c"
+	Shapes      []string // nil = all
+	MaxBuf      int64    // 0 = default
+	Label       string
+	SlowUpgrade time.Duration
+	SlowPolling time.Duration
 }
 
 func (c cell) id() string {
@@ -169,6 +171,17 @@ func cells(run *vk.Run, race bool) []cell {
 				out = append(out, cell{Transports: tr, Recovery: rec, Clients: shapeCell.clients, Emitters: shapeCell.emitters,
 					PerEmitter: per / max(1, shapeCell.emitters/4), Sizes: small, Dirs: []string{"c2s", "s2c"}, Label: "mixed-shapes"})
 			}
+		}
+	}
+	// traffic through a slowed-down swap, binary-heavy (multi-frame packets must not be torn by the swap)
+	for _, rec := range []bool{false, true} {
+		for rep := 0; rep < run.Pick(3, 20); rep++ {
+			out = append(out, cell{Transports: []string{"polling", "websocket"}, Recovery: rec, Clients: 1, Emitters: 3, PerEmitter: run.Pick(300, 1000),
+				Sizes: []int{1, 40, 300}, Dirs: []string{"c2s", "s2c"}, Shapes: []string{"Binary", "S6", "map-bin", "[]Binary", "int"},
+				Label: fmt.Sprintf("through-swap-%d", rep), SlowUpgrade: time.Duration(2+rep%4) * time.Millisecond})
+			out = append(out, cell{Transports: []string{"polling", "websocket"}, Recovery: rec, Clients: 1, Emitters: 3, PerEmitter: run.Pick(300, 1000),
+				Sizes: []int{1, 40, 300, 5000}, Dirs: []string{"c2s", "s2c"}, Shapes: []string{"Binary", "S6", "map-bin", "[]Binary", "int"},
+				Label: fmt.Sprintf("late-poll-at-swap-%d", rep), SlowPolling: time.Duration(1+rep%3) * time.Millisecond})
 		}
 	}
 	if race {
@@ -307,7 +320,7 @@ func runCell(run *vk.Run, c cell) {
 			er := rand.New(rand.NewSource(seeds[(ci*2+dirIdx[dir])*c.Emitters+g]))
 			go func(g int) {
 				defer wg.Done()
-				through := len(c.Transports) == 2 && c.Label == "mixed-shapes"
+				through := len(c.Transports) == 2 && (c.Label == "mixed-shapes" || c.SlowUpgrade > 0 || c.SlowPolling > 0)
 				for k := 0; k < c.PerEmitter || (through && !upgradedAll() && k < 20*c.PerEmitter); k++ {
 					if through {
 						if upgradedAll() {
@@ -321,7 +334,7 @@ func runCell(run *vk.Run, c cell) {
 					}
 					b := bindings[er.Intn(len(bindings))]
 					size := c.Sizes[(k+g)%len(c.Sizes)]
-					if c.Label == "mixed-shapes" {
+					if c.Label == "mixed-shapes" || c.SlowUpgrade > 0 || c.SlowPolling > 0 {
 						size = c.Sizes[er.Intn(len(c.Sizes))]
 					}
 					v := b.shape.Make(er, size)
@@ -341,7 +354,7 @@ func runCell(run *vk.Run, c cell) {
 
 	cfg := e2e.Config{
 		Transports: c.Transports, Recovery: c.Recovery, Clients: c.Clients,
-		OnWorld: func(w *e2e.World) { world.Store(w) },
+		OnWorld: func(w *e2e.World) { world.Store(w) }, SlowUpgrade: c.SlowUpgrade, SlowPolling: c.SlowPolling,
 		OnServerSocket: func(idx int, ss sio.ServerSocket) {
 			register(ss, recs[idx][0], "c2s", idx)
 			ss.OnEvent("fence", func(ack func()) { ack() })
